@@ -34,11 +34,11 @@ ResOk == /\ last'.res = Ev.res
          /\ last'.idx = Ev.idx
          /\ last'.sent = (IF Ev.a = "Exchange" THEN Ev.sent ELSE "")
          /\ (Ev.a = "Sense" => last'.pauses = Ev.pauses)          \* the arguments of time.sleep(), in microseconds
-         /\ (Ev.a = "Sense" => Ev.sent = "mute-first")            \* sense() starts by switching the field off
+         /\ (Ev.a = "Sense" => Ev.sent = (IF BadArgs(Ev.kinds) THEN "no-driver-call" ELSE "mute-first"))            \* sense() starts by switching the field off
          /\ (Ev.a = "Sense" /\ Ev.res = "none") => Ev.muted
 PostOk == target' = Ev.target /\ field' = Ev.field
 
-InvNames == <<"FirstFound", "UnsupportedIgnored", "Raises", "MuteWhenNone", "TargetFresh", "ExchangeOk", "Pauses">>
+InvNames == <<"FirstFound", "UnsupportedIgnored", "Raises", "MuteWhenNone", "TargetFresh", "ExchangeOk", "Pauses", "ArgCheck">>
 InvP(n) == CASE n = "FirstFound" -> FirstFoundP(last')
              [] n = "UnsupportedIgnored" -> UnsupportedIgnoredP(last')
              [] n = "Raises" -> RaisesP(last')
@@ -46,6 +46,7 @@ InvP(n) == CASE n = "FirstFound" -> FirstFoundP(last')
              [] n = "TargetFresh" -> TargetFreshP(last', target')
              [] n = "ExchangeOk" -> ExchangeP(last', target)
              [] n = "Pauses" -> PausesP(last')
+             [] n = "ArgCheck" -> ArgCheckP(last', target', field')
 AllInv == \A i \in DOMAIN InvNames : InvP(InvNames[i])
 
 Real == Guarded /\ ResOk /\ PostOk /\ AllInv
@@ -55,7 +56,8 @@ FailedInv == SelectSeq(InvNames, LAMBDA n : ~ENABLED (Guarded /\ ResOk /\ PostOk
 \* the contract evaluated on what was OBSERVED (when the real outcome is not the one the model produces)
 Obs == [op |-> CASE Ev.a = "Sense" -> "sense" [] Ev.a = "Listen" -> "listen" [] OTHER -> "exchange",
         kinds |-> Ev.kinds, iters |-> Ev.iters, res |-> Ev.res, idx |-> Ev.idx, sent |-> Ev.sent, had |-> target,
-        interval |-> Ev.interval, cycle |-> Ev.cycle, pauses |-> Ev.pauses]
+        interval |-> Ev.interval, cycle |-> Ev.cycle, pauses |-> Ev.pauses, hadf |-> field,
+        drv |-> Ev.sent # "no-driver-call"]
 ObsBroken ==
     SelectSeq(InvNames, LAMBDA n :
         CASE n = "FirstFound" -> ~FirstFoundP(Obs)
@@ -64,7 +66,8 @@ ObsBroken ==
           [] n = "MuteWhenNone" -> ~MuteWhenNoneP(Obs, Ev.field) \/ (Ev.a = "Sense" /\ Ev.res = "none" /\ ~Ev.muted)
           [] n = "TargetFresh" -> ~TargetFreshP(Obs, Ev.target)
           [] n = "ExchangeOk" -> ~ExchangeP(Obs, target)
-          [] n = "Pauses" -> ~PausesP(Obs))
+          [] n = "Pauses" -> ~PausesP(Obs)
+          [] n = "ArgCheck" -> ~ArgCheckP(Obs, Ev.target, Ev.field))
 Why == IF ~ENABLED Guarded THEN <<"guard", [nops |-> nops]>>
        ELSE IF ~ENABLED (Guarded /\ ResOk /\ PostOk) /\ ObsBroken # <<>> THEN <<"inv", ObsBroken>>
        ELSE IF ~ENABLED (Guarded /\ ResOk) THEN <<"result", [expected |-> Exp, target |-> target, sent |-> SentFor(target)]>>
